@@ -225,6 +225,9 @@ pub struct World {
     pub model: RefCell<Model>,
     pub ctx: RefCell<Vec<Ctx>>,
     pub in_stabilise: Cell<bool>,
+    /// the lifecycle call (subscribe / unsubscribe) being made right now, "" if none; left set
+    /// when the call unwinds, so that the panic can be attributed
+    pub api: Cell<&'static str>,
     /// this run also renders the graph (save_dot_to_string) from callbacks and between actions
     pub dot_reads: Cell<bool>,
     /// an update handler has started running in the current stabilise
@@ -275,6 +278,7 @@ impl World {
             model: RefCell::new(Model::new(knobs)),
             ctx: RefCell::new(vec![]),
             in_stabilise: Cell::new(false),
+            api: Cell::new(""),
             dot_reads: Cell::new(knobs.hash_seed % 8 == 3),
             handler_phase: Cell::new(false),
             crash_counter: Cell::new(0),
